@@ -25,7 +25,8 @@ Inductive ev :=
 | EGW (i : nat) | EGR
 | EPX (i : nat) | ERPX.                               (* a panic the script did not raise left a mapper / the reducer callback *)                                (* generator waits at its gate before item i / gate released *)
 
-Inductive xout := XRet (k : nat) | XErr (e : err) | XNoOutput | XPanic (p : pval) | XTwice | XNil | XHang | XOther.
+Inductive xout := XRet (k : nat) | XErr (e : err) | XNoOutput | XPanic (p : pval) | XTwice | XNil | XHang | XOther
+| XCrash.   (* the driver PROCESS died while running this case: a panic escaped in a goroutine of the library *)
 
 Record case := mkcase {
   c_fn : nat;                    (* 0 MapReduce 1 MapReduceVoid 2 MapReduceChan 3 ForEach 4 Finish 5 FinishVoid
@@ -171,7 +172,8 @@ Definition is_xpanic (o : xout) : bool := match o with XPanic _ => true | _ => f
 Definition outcome_ok (c : case) : bool :=
   let t := c_trace c in
   match c_out c with
-  | XHang | XOther => false                                       (* "in every case the call returns" *)
+  | XHang | XOther | XCrash => false                              (* "in every case the call returns"; a panic is
+                                                                     re-raised in the CALLING goroutine *)
   | XErr EDeadline => Nat.eqb (c_ctx c) 1 || ex_before is_cx is_ret t
   | XErr e =>                                                    (* the first cancel wins *)
       let e' := match e with EUser n => Some n | _ => None end in
@@ -243,7 +245,7 @@ Definition spec_ok_gen (skip : nat) (c : case) : bool :=
                       (* the library never makes a callback panic (writer.Write on a closed channel) *)
                       negb (existsb (fun e => match e with EPX _ | ERPX => true | _ => false end) t))) && (Nat.eqb skip 2 || panic_rule c) &&
   (Nat.eqb skip 3 || ctx_rule c) &&
-  match c_out c with XHang | XOther => false | _ => true end &&                         (* the call returns *)
+  match c_out c with XHang | XOther | XCrash => false | _ => true end &&                (* the call returns *)
   Nat.eqb (c_leaked c) 0.                                                               (* no goroutine left *)
 
 (* errorx.AtomicError, as retErr needs it: Load returns the last error Set, for EVERY non-nil error interface value
@@ -454,7 +456,7 @@ Definition accepted (c : case) (s : state) : bool :=
 Definition model_applicable (c : case) : bool :=
   c_model c && Nat.eqb (c_leaked c) 0 &&
   match c_fn c with 0 | 1 | 2 | 4 => true | _ => false end &&
-  match c_out c with XHang | XOther => false | _ => true end.
+  match c_out c with XHang | XOther | XCrash => false | _ => true end.
 
 Definition gate_of (c : case) : gatecfg := mkgate (Nat.eqb (c_ctx c) 3) (c_gate c) (nitems c).
 Definition model_run (c : case) : state := greedy (cfg_of c) (gate_of c) (oracle_of c) 3000 (init (cfg_of c)).
